@@ -85,7 +85,7 @@ def cases(tier: str, seed: int) -> List[Dict[str, Any]]:
     out = [dict(c, kind="track", seed=seed) for c in _progs(tier)]
     # histories: the SAME tracked module called several times; metrics must describe the last call
     for n, k in enumerate(KEYS):
-        for calls in (["fb", "f"], ["f", "fb"], ["fb", "fb"], ["fb", "other", "fb"], ["fb", "inspect", "fb"], ["f", "inspect", "f"]):
+        for calls in (["fb", "f"], ["f", "fb"], ["fb", "fb"], ["fb", "other", "fb"], ["fb", "inspect", "fb"], ["f", "inspect", "f"], ["fb", "upd", "fb"], ["f", "upd", "f"]):
             out.append({"kind": "track", "prog": {"items": [["op", "linear:nn"], ["op", k]], "first": "x",
                                                   "sink": "two_outputs" if n % 2 else "sum"},
                         "backward": calls[-1] == "fb", "calls": calls, "seed": seed})
